@@ -295,10 +295,30 @@ def rule_r4(facts, rep, rid="C20-R4"):
         probs.append("does not overwrite the node with GraphNode::Empty")
     elif rec and tomb < max(rec.values()):
         probs.append("the node is overwritten with Empty before its %s link is read" % [k for k, v in rec.items() if v > tomb])
+    # the two recursive steps must be taken for EVERY node kind: not nested in a match arm / if that selects some kinds only
+    for x in fb.calls_in(f.body):
+        if fb.callee(x) != f.def_:
+            continue
+        for p in c.parents(x):
+            if p.get("k") == "match" and p.get("src") == "Normal":
+                sty = fb.norm(fb.tnorm(p.get("sty") or "")).replace("&", "")
+                arms = p.get("arms", [])
+                # which arm holds the call?
+                holder = [a for a in arms if any(y is x for y in fb.walk(a["body"]))]
+                others = [a for a in arms if a not in holder]
+                if sty.endswith("GraphNode") and others:
+                    skipped = []
+                    for a in others:
+                        if not any(fb.callee(y) == f.def_ for y in fb.calls_in(a["body"])):
+                            skipped += [fb.last_seg(v) for v in fb.pat_variants(a["pat"])]
+                    if skipped:
+                        probs.append("the recursive step `%s` is only taken in some arms of a match on the node kind; for %s the child/next links are not followed" % (fb.show(x)[:50], skipped))
+            if p.get("k") == "if" and p["c"].get("k") != "letx":
+                probs.append("the recursive step `%s` is guarded by `%s`" % (fb.show(x)[:40], fb.show(p["c"])[:50]))
     if probs:
-        rep.violation(rid, key, "; ".join(probs) + " — parts of the old version stay live (ghost blocks, ghost backlinks)", f.loc)
+        rep.violation(rid, key, "; ".join(dict.fromkeys(probs)) + " — parts of the old version stay live (ghost blocks, ghost backlinks)", f.loc)
     else:
-        rep.ok(rid, key, "recurses on child_id() and next_id(), then set_node(id, Empty)", f.loc)
+        rep.ok(rid, key, "recurses on child_id() and next_id() for every node kind, then set_node(id, Empty)", f.loc)
     # its line is cleared
     m = c.mentions(f.body)
     if q.has_call(m, "GraphNode::line_id") and q.has_call(m, "Line::new"):
